@@ -78,6 +78,11 @@ def main(sweep, replay):
             rep.fail("exception escaped from the library during the sweep", function=frames[-1].strip()[:120],
                      observed=tb[-1200:])
             rep.dump()
+        elif getattr(rep, "failures", None):
+            # the driver itself tripped over data of an unexpected shape AFTER it had already recorded failing
+            # inputs: those failures are the result of the sweep; the trace is kept with them
+            rep.bounds["driver_exception_after_failures"] = tb[-800:]
+            rep.dump()
         else:
             traceback.print_exc()
             sys.exit(3)
